@@ -589,6 +589,76 @@ def _vrh_folded(ctx) -> Optional[List[str]]:
     return None if sided else problems
 
 
+@_ioe
+def _csh_folded(ctx) -> Optional[List[str]]:
+    """Fold check_supported_header on probe (registry, header) pairs: ValueError exactly when the header holds a name the registry lacks.  Names that
+    are substrings / case variants of registered ones, the empty registry and the empty header are among the probes.  None when inconclusive."""
+    from ..fold import FuncVal, FoldRaise, is_unknown
+    eng = ctx.eng
+    P, F = eng.prog, eng.folder
+    fn = P.func("registry:check_supported_header")
+    problems: List[str] = []
+    regs = [{}, {"alg": 1}, {"alg": 1, "kid": 2, "crit": 3}, {"algx": 1, "ki": 2}]
+    hdrs = [{}, {"alg": "a"}, {"kid": "k"}, {"alg": "a", "kid": "k"}, {"al": "a"}, {"ALG": "a"}, {"alg": "a", "zz": None}, {"zz": 0, "alg": "a"}, {"alg": "a", "kid": "k", "crit": [], "x": 1},
+            {"algx": 1}, {"ki": 1, "kid": 2}, {"": 1}]
+    F.start_trace()
+    try:
+        for reg in regs:
+            for hdr in hdrs:
+                want_ok = all(k in reg for k in hdr)
+                try:
+                    r = F.call(FuncVal(fn, None, None), [dict(reg), dict(hdr)], {})
+                    if is_unknown(r):
+                        return None
+                    got = "ok"
+                except FoldRaise as ex:
+                    got = getattr(ex, "name", "") or "?"
+                where = f"registry names {sorted(reg)}, header {hdr!r}"
+                if want_ok and got != "ok":
+                    problems.append(f"refuses a header of registered names only ({where}: {got})")
+                elif not want_ok and got == "ok":
+                    problems.append(f"accepts an unregistered name ({where})")
+                elif not want_ok and got != "ValueError":
+                    problems.append(f"refuses {where} with {got}, not ValueError")
+    finally:
+        sided = F.one_sided()
+    return None if sided else problems
+
+
+@_ioe
+def _crit_folded(ctx) -> Optional[List[str]]:
+    """Fold check_crit_header on probe headers whose "crit" is a list of str (other shapes are E2b / E9's business): ValueError exactly when some
+    listed name is not a member of the header - first, middle or last in the list; no "crit" and an empty list pass.  None when inconclusive."""
+    from ..fold import FuncVal, FoldRaise, is_unknown
+    eng = ctx.eng
+    P, F = eng.prog, eng.folder
+    fn = P.func("registry:check_crit_header")
+    problems: List[str] = []
+    hdrs = [{}, {"alg": "a"}, {"alg": "a", "crit": []}, {"alg": "a", "crit": ["alg"]}, {"alg": "a", "crit": ["b64"]}, {"alg": "a", "b64": False, "crit": ["b64"]},
+            {"alg": "a", "b64": None, "x": 0, "crit": ["b64", "x"]}, {"alg": "a", "b64": False, "crit": ["b64", "x"]}, {"alg": "a", "x": 1, "crit": ["b64", "x"]},
+            {"alg": "a", "x": 1, "y": 2, "crit": ["x", "zz", "y"]}, {"alg": "a", "crit": ["crit"]}, {"alg": "a", "crit": ["al"]}, {"alg": "a", "crit": ["ALG"]}, {"alg": "a", "crit": [""]}]
+    F.start_trace()
+    try:
+        for hdr in hdrs:
+            want_ok = all(k in hdr for k in hdr.get("crit", []))
+            try:
+                r = F.call(FuncVal(fn, None, None), [{k: (list(v) if isinstance(v, list) else v) for k, v in hdr.items()}], {})
+                if is_unknown(r):
+                    return None
+                got = "ok"
+            except FoldRaise as ex:
+                got = getattr(ex, "name", "") or "?"
+            if want_ok and got != "ok":
+                problems.append(f"refuses header {hdr!r} whose critical names are all present ({got})")
+            elif not want_ok and got == "ok":
+                problems.append(f"accepts header {hdr!r}: a name listed in crit is not a member of the header")
+            elif not want_ok and got != "ValueError":
+                problems.append(f"refuses header {hdr!r} with {got}, not ValueError")
+    finally:
+        sided = F.one_sided(ignore=("is_list_str",))
+    return None if sided else problems
+
+
 def r15_4(ctx) -> None:
     eng = ctx.eng
     P = eng.prog
@@ -686,8 +756,13 @@ def _r15_4_rest(ctx) -> None:
                     cont = all(cfg.exit not in cfg.reachable(s0, [loops[0]]) for s0 in succ_by_label(cfg, t, other))
                     if cont and all(cfg.must_pass(s0, loops[0], [t]) for s0 in succ_by_label(cfg, loops[0], "iter")):
                         ok = True
-    ctx.check(ok, "R15.4", c, c.node, "check_crit_header", "a name listed in crit that is absent from the header does not always raise", "for k in header['crit']: raise iff k not in header",
-              construct="crit presence check")
+    cf = _crit_folded(ctx)
+    if cf is not None:
+        ctx.check(not cf, "R15.4", c, c.node, "check_crit_header", "check_crit_header " + "; ".join(cf[:2]), "raise iff some name listed in crit is not a member of the header",
+                  construct="crit presence check")
+    else:
+        ctx.check(ok, "R15.4", c, c.node, "check_crit_header", "a name listed in crit that is absent from the header does not always raise", "for k in header['crit']: raise iff k not in header",
+                  construct="crit presence check")
     # check_supported_header
     s_ = P.func("registry:check_supported_header")
     cfg = cfg_of(s_)
@@ -723,8 +798,13 @@ def _r15_4_rest(ctx) -> None:
                 if t.kind == "test" and isinstance(t.ast, ast.Compare) and norm(t.ast.left) == tv and norm(t.ast.comparators[0]) == rp and isinstance(t.ast.ops[0], ast.NotIn):
                     if all(not _falls_back(cfg, s0, [l]) for s0 in succ_by_label(cfg, t, "true")):
                         ok = True
-    ctx.check(ok, "R15.4", s_, s_.node, "check_supported_header", "a header key outside the registry does not always raise", "raise iff set(header) - set(registry) is non-empty",
-              construct="unknown parameter check")
+    sf = _csh_folded(ctx)
+    if sf is not None:
+        ctx.check(not sf, "R15.4", s_, s_.node, "check_supported_header", "check_supported_header " + "; ".join(sf[:2]), "raise iff set(header) - set(registry) is non-empty",
+                  construct="unknown parameter check")
+    else:
+        ctx.check(ok, "R15.4", s_, s_.node, "check_supported_header", "a header key outside the registry does not always raise", "raise iff set(header) - set(registry) is non-empty",
+                  construct="unknown parameter check")
 
 
 def _set_source(eng, fn, e) -> Optional[str]:
@@ -842,6 +922,79 @@ def _position_name(txt: str) -> str:
     return txt.split(".")[-1].lstrip("_")
 
 
+@_ioe
+def _shadow_pairs_folded(ctx):
+    """Fold the two `headers()` merges on probes that carry one name ("kid") in two positions: for each ordered pair of positions, is the overlap
+    refused (the call raises) or does one copy silently win?  -> [(function, shadowed position, shadowing position, refused)] or None when inconclusive."""
+    from ..fold import FuncVal, FoldRaise, is_unknown, Inst
+    eng = ctx.eng
+    P, F = eng.prog, eng.folder
+    out = []
+    F.start_trace()
+    try:
+        # JWS: HeaderMember(protected, header)
+        HM = P.cls("rfc7515.model:HeaderMember")
+        hm = HM.methods.get("headers")
+        R = P.cls("rfc7516.models:Recipient")
+        rh = R.methods.get("headers")
+        G = P.cls("rfc7516.models:GeneralJSONEncryption")
+        if hm is None or rh is None:
+            return None
+
+        def run(fn, inst):
+            try:
+                got = F.call(FuncVal(fn, None, inst), [], {})
+            except FoldRaise:
+                return "raise"
+            if is_unknown(got) or not isinstance(got, dict) or is_unknown(got.get("kid")):
+                return None
+            return got.get("kid")
+        # sanity: without an overlap nothing is refused
+        m0 = F.instantiate(HM, [{"alg": "A", "kid": "p"}, {"x": 1}], {})
+        if run(hm, m0) != "p":
+            return None
+        m1 = F.instantiate(HM, [{"alg": "A", "kid": "p"}, {"kid": "h"}], {})
+        r = run(hm, m1)
+        if r is None:
+            return None
+        out.append((hm, "protected", "header", r == "raise") if r in ("h", "raise") else (hm, "header", "protected", False))
+        for (pa, pb, pr, un, hd) in (("protected", "unprotected", {"enc": "E", "kid": "p"}, {"kid": "u"}, {"alg": "A"}),
+                                     ("protected", "header", {"enc": "E", "kid": "p"}, {"jku": "j"}, {"alg": "A", "kid": "h"}),
+                                     ("unprotected", "header", {"enc": "E"}, {"kid": "u"}, {"alg": "A", "kid": "h"})):
+            par = F.instantiate(G, [dict(pr), b"m", dict(un)], {})
+            rc = F.instantiate(R, [par, dict(hd), None], {})
+            if not isinstance(par, Inst) or not isinstance(rc, Inst):
+                return None
+            r = run(rh, rc)
+            if r is None:
+                return None
+            first = {"protected": "p", "unprotected": "u", "header": "h"}
+            if r == "raise":
+                out.append((rh, pa, pb, True))
+            elif r == first[pb]:
+                out.append((rh, pa, pb, False))
+            elif r == first[pa]:
+                out.append((rh, pb, pa, False))
+            else:
+                return None
+        par = F.instantiate(G, [{"enc": "E", "kid": "p"}, b"m", {"jku": "j"}], {})
+        rc = F.instantiate(R, [par, {"alg": "A"}, None], {})
+        if run(rh, rc) != "p":
+            return None
+        # the other outcomes of the merge's own tests: no shared header, an empty one, no recipient header, a compact message, empty JWS members
+        CE = P.cls("rfc7516.models:CompactEncryption")
+        for par_, hd_ in ((F.instantiate(G, [{"enc": "E", "kid": "p"}, b"m", None], {}), None), (F.instantiate(G, [{"enc": "E", "kid": "p"}, b"m", {}], {}), {}),
+                          (F.instantiate(CE, [{"enc": "E", "kid": "p"}, b"m"], {}), None), (F.instantiate(CE, [{"enc": "E", "kid": "p"}, b"m"], {}), {"kid": "h"})):
+            rc = F.instantiate(R, [par_, hd_, None], {})
+            if run(rh, rc) not in ("p", "h", "raise"):
+                return None
+        for a_, b_ in ((None, None), ({}, {"kid": "h"}), ({"kid": "p"}, None), ({"kid": "p"}, {})):
+            run(hm, F.instantiate(HM, [a_, b_], {}))
+    finally:
+        sided = F.one_sided(ignore=("__init__",))
+    return None if sided else out
+
+
 def r15_8(ctx) -> None:
     """R15.8  the header that is validated is a merged view of the header positions.  The view stands for every position only if no member
     of one position can hide the member of the same name in another: wherever a `headers()` merge lets a later position overwrite an earlier
@@ -850,6 +1003,16 @@ def r15_8(ctx) -> None:
     eng = ctx.eng
     from .common import resolve_all
     n = 0
+    pairs = _shadow_pairs_folded(ctx)
+    if pairs is not None:
+        for fn, pa, pb, refused in pairs:
+            n += 1
+            ctx.check(refused, "R15.8", fn, fn.node, f"{fn.short} :: {pa} then {pb}", f"in the merged header view a member of the `{pa}` position is overwritten by the member of the "
+                      f"same name in the `{pb}` position; only the surviving copy is validated, the hidden one is emitted / accepted unchecked "
+                      f"(e.g. an ill-typed \"kid\" in `{pa}` next to a well-typed one in `{pb}`)",
+                      "refuse overlapping names (RFC 7515 7.2.1 / RFC 7516 7.2.1) or validate each position", construct=f"{pa} header shadowed by {pb} header in {fn.short}")
+        ctx.count("R15.8", n, 4, "ordered pairs of header positions merged by headers()")
+        return
     for fn in eng.prog.all_functions():
         if fn.name != "headers" or fn.cls is None:
             continue
